@@ -179,6 +179,8 @@ func OwnLayers(n *gen.Node) []Layer {
 		out = []Layer{l}
 	case "fmtargleaf":
 		out = []Layer{harnessL("*gen.FmtArgLeaf")}
+	case "protofailleaf":
+		out = []Layer{harnessL("*gen.ProtoFailLeaf")}
 	case "domainraw":
 		out = []Layer{domainL(gen.OneLine(S[0]))}
 	case "withstackdeep":
@@ -424,7 +426,7 @@ func Text(n *gen.Node) string {
 	case "newfew":
 		return S[0] + " " + h(0) + " " + S[1] + " " + k(0)
 	case "goerr", "new", "pkgnew", "nofmtleaf", "fmtleaf", "unimpl", "domnew", "gstatus",
-		"oldfmtleaf", "fmtrleaf", "ncleaf", "isleaf", "hdleaf", "lowleaf", "asleaf", "stacksafeleaf", "elidewrap", "handledmsg", "unimpld", "oldfmtelide", "safemsgwrap":
+		"oldfmtleaf", "fmtrleaf", "ncleaf", "isleaf", "hdleaf", "protofailleaf", "lowleaf", "asleaf", "stacksafeleaf", "elidewrap", "handledmsg", "unimpld", "oldfmtelide", "safemsgwrap":
 		return S[0]
 	case "newf":
 		return S[1] + " " + S[0] + " " + S[2]
